@@ -377,6 +377,8 @@ class _Null(object):
     """build a stub object for the NULL singleton"""
     def __repr__(self):
         return "NULL"
+    def __reduce__(self): # (un)pickle as the singleton, so keys compare equal
+        return "NULL"
 NULL = _Null()
 
 
